@@ -35,7 +35,17 @@ FILE_C = (b'#diffx: encoding=utf-8, version=1.0\n'
           b'#...diff: length=2\na\n'
           b'#..file:\n#...meta: length=11\n{"p": "r"}\n'
           b'#...diff: length=2\nb\n')
-FILES = [FILE_A, FILE_B, FILE_C]
+# a foreign file in which every content header carries an option the library does
+# not know (the object-model writer cannot serialise it: to_bytes raises,
+# and must leave the tree alone)
+FILE_D = (b'#diffx: encoding=utf-8, version=1.0\n'
+          b'#.preamble: indent=2, length=6, line_endings=unix, x-lang=en\n'
+          b'  abc\n'
+          b'#.meta: format=json, length=11, x-m=1\n{"a": "x"}\n'
+          b'#.change:\n#..preamble: length=2, x-lang=fr\nc\n'
+          b'#..file:\n#...meta: length=11\n{"p": "q"}\n'
+          b'#...diff: length=2, x-d=4\na\n')
+FILES = [FILE_A, FILE_B, FILE_C, FILE_D]
 
 NSLOTS = 3
 
@@ -65,6 +75,7 @@ def ops_for(nslots):
         ops += [
             ('new', i, None), ('new-attrs', i, None),
             ('parse', i, 0), ('parse', i, 1), ('parse', i, 2),
+            ('parse', i, 3), ('mut-unknown-options', i, None),
             ('add-change', i, None), ('add-change-attrs', i, None),
             ('add-file', i, None), ('add-file-big', i, None),
             ('mut-meta', i, None), ('mut-meta-nested', i, None),
@@ -142,6 +153,15 @@ def apply(world, op):
     elif name == 'mut-content-options':
         t.meta_section.options['zz'] = 1
         t.preamble_section.options['indent'] = 9
+    elif name == 'mut-unknown-options':
+        # options the library does not know, on the sections whose options
+        # the writer passes through (preamble, change, file)
+        t.preamble_section.options['x-lang'] = 'en'
+        if _last_change(t) is not None:
+            _last_change(t).options['x-c'] = 'v'
+            _last_change(t).preamble_section.options['x-lang'] = 'fr'
+        if _last_file(t) is not None:
+            _last_file(t).options['x-f'] = 1
     elif name == 'set-preamble':
         t.preamble = 'changed\n'
         t.preamble_mimetype = 'text/markdown'
